@@ -227,6 +227,17 @@ func exec(line string) (out string) {
 		}
 		return "ok " + encB([]byte(str))
 	}
+	if op == "value.e2e" {
+		if len(args) != 2 {
+			return "bad-op"
+		}
+		g, ok1 := decGVal(args[0])
+		o, ok2 := decOpts(args[1])
+		if !ok1 || !ok2 || o.nilPath {
+			return "bad-op"
+		}
+		return e2e(g, o)
+	}
 	a, ok := apis[args[0]]
 	if !ok {
 		return "bad-op"
